@@ -140,6 +140,12 @@ pub fn check_record(rec: &Value) -> Verdict {
             }
             Ok(Ok(s)) => s,
         };
+        // a literal can also become infinite or the largest float without being spelt that way (an overflowing
+        // decimal): the Metal spelling of such a value is a name, which cannot be read back as a literal
+        if tname == "msl" && !text.contains("INFINITY") && !text.contains("FLT_MAX") && (printed.contains("INFINITY") || printed.contains("FLT_MAX")) {
+            labels.push("msl_target_spelling(excluded)".into());
+            continue;
+        }
         let t2 = match parse_text(&printed) {
             Err(p) => return Verdict::fail(format!("panic:{}", p), format!("--- printed ({})\n{}\n--- source\n{}", tname, printed, text)),
             Ok(Err(e)) => {
@@ -324,9 +330,10 @@ fn render_x(x: &X, out: &mut String) {
             out.push(']');
         }
         X::Member(a, m) => {
-            // a member of a numeric literal (`127.m`) is not a program any front end or exporter produces
+            // a member of a numeric literal: written with a blank so that the source means that (`127 .m`)
             if matches!(&**a, X::Leaf(s) if s.chars().next().map(|c| c.is_ascii_digit()).unwrap_or(false)) {
-                out.push_str("a");
+                sub(a, out);
+                out.push(' ');
             } else {
                 sub(a, out);
             }
@@ -495,9 +502,46 @@ pub fn run(ctx: &mut Ctx) {
         },
         check_record,
     );
+    // declaration forms that the program generator does not produce
+    const DECLARATIONS: &[&str] = &[
+        "struct B { int a; };\nstruct D : B { int c; };\nstruct E : D, B { float e; };\n",
+        "template<typename T> struct Box { T value; T twice() { return value + value; } };\ntemplate<typename T, int N> struct Arr { T v[N]; };\n",
+        "typedef float3 Vec;\ntypedef int Arr4[4];\n",
+        "typedef const uint CU;\ntypedef Texture2D<float4> Tex;\n",
+        "cbuffer CB : register(b1, space2) { float4 a; float b; int c[3]; };\n",
+        "cbuffer CB2 { float4 a : packoffset(c0); float b : packoffset(c1.y); }\n",
+        "enum Plain { PA = 1 << 2, PB };\n",
+        "enum class Mode { MA, MB = 3 };\n",
+        "enum Typed : uint { TA, TB = 3 };\n",
+        "namespace N { namespace M { static const int k = 1; struct S { int m; }; } }\nN::M::S g(N::M::S s) { return s; }\n",
+        "[numthreads(8, 8, 1)]\nvoid cs(uint3 id : SV_DispatchThreadID, uint gi : SV_GroupIndex) { }\n",
+        "struct V { float4 p : SV_Position; nointerpolation float2 uv : TEXCOORD0; };\nfloat4 ps(V v, bool f : SV_IsFrontFace) : SV_Target0 { return v.p; }\n",
+        "Texture2D<float4> t : register(t3);\nSamplerState s : register(s0, space1);\nRWStructuredBuffer<uint> u[4];\nConstantBuffer<float4> c;\n",
+        "static const float k[2][3] = { { 1, 2, 3 }, { 4, 5, 6 } };\ngroupshared uint lds[64];\nextern const int e;\n",
+        "void f(in int a, out float b, inout uint c, const bool d = true, float e[2]) { b = 0; }\n",
+        "template<typename T = float, int N = 4> T g(T x) { return x * N; }\nvoid h() { g<float, 2>(1.0); g(2); }\n",
+        "void f() { [unroll] for (int i = 0; i < 4; ++i) { } [loop] while (false) { } [branch] if (true) { } [flatten] if (false) { } else { } [unroll(4)] do { } while (false); }\n",
+        "void f(int a) { switch (a) { case 0: case 1: a++; break; case 2: { a--; } default: discard; } }\n",
+        "struct S { int a; void m() { } int n(int x = 3) { return x; } };\n",
+        "struct S2 { static const int k = 3; int a; };\n",
+        "row_major float4x4 m;\ncolumn_major float3x2 n;\nprecise float p;\nvolatile int v;\nunorm float4 u;\nsnorm float s;\n",
+    ];
+    ctx.run_enum("declaration_forms", DECLARATIONS.len() as u64, false, |i| json!({"kind": "decl", "text": DECLARATIONS[i as usize]}), |i| check_record(&json!({"kind": "decl", "text": DECLARATIONS[i as usize]})));
     let repo = repo_texts();
     ctx.run_enum("repository_inputs", repo.len() as u64, false, |i| json!({"kind": "repo", "text": repo[i as usize]}), |i| check_record(&json!({"kind": "repo", "text": repo[i as usize]})));
     for l in ["kind_pair", "kind_expr", "kind_program", "kind_exported"] {
         ctx.require_label(l, 50);
+    }
+    if ctx.tier == Tier::Thorough && ctx.failures.is_empty() {
+        // coverage-guided stage: the fuzzer mutates generated programs (and the repository's inputs); the oracle in the
+        // target is this check's check_record
+        let mut seeds: Vec<Vec<u8>> = sample_strategy(&progen::choices_strategy(400), ctx.seed ^ 0xf09, 300)
+            .iter()
+            .enumerate()
+            .map(|(i, ch)| progen::generate(ch, if i % 3 == 0 { progen::Profile { pipelines: false, ..progen::Profile::full() } } else { progen::Profile::exec_hlsl() }).1.into_bytes())
+            .collect();
+        seeds.extend(repo.iter().map(|t| t.clone().into_bytes()));
+        seeds.extend(pair_programs().into_iter().step_by(17).map(|t| t.into_bytes()));
+        crate::fuzz::campaign(ctx, "text_property", Some("C09"), seeds, 300, &|bytes: &[u8]| json!({"kind": "text", "text": String::from_utf8_lossy(bytes).to_string()}), &check_record);
     }
 }
